@@ -129,13 +129,28 @@ pub fn std_sort_u64(v: &mut Vec<u64>)
 { unimplemented!() }
 
 // ================================ spec vocabulary of C14 ==========================================
-// what delete()/persist() (I/O) may not change
+// what delete()/persist() (I/O) may not change: everything except the four file handles, the shared parent counters
+// and the two file-size cells; the newest stored message (as served by the read path) stays the same
 pub open spec fn seg_core_eq(a: Segment, b: Segment) -> bool {
-    &&& a.start_offset == b.start_offset && a.end_offset == b.end_offset && a.current_offset == b.current_offset
-    &&& a.is_closed == b.is_closed && a.message_expiry == b.message_expiry
-    &&& a.size_bytes == b.size_bytes && a.max_size_bytes == b.max_size_bytes
-    &&& a.stream_id == b.stream_id && a.topic_id == b.topic_id && a.partition_id == b.partition_id
+    &&& b == (Segment {
+            log_writer: b.log_writer, log_reader: b.log_reader, index_writer: b.index_writer, index_reader: b.index_reader,
+            size_of_parent_stream: b.size_of_parent_stream, size_of_parent_topic: b.size_of_parent_topic,
+            size_of_parent_partition: b.size_of_parent_partition,
+            messages_count_of_parent_stream: b.messages_count_of_parent_stream,
+            messages_count_of_parent_topic: b.messages_count_of_parent_topic,
+            messages_count_of_parent_partition: b.messages_count_of_parent_partition,
+            log_size_bytes: b.log_size_bytes, index_size_bytes: b.index_size_bytes,
+            ..a })
     &&& seg_last_ts(a) == seg_last_ts(b)
+}
+
+// the state Segment::create must produce for a new segment at `start` (from the property: it starts exactly at `start`,
+// is open and empty; ServerDefault expiry is resolved against the server configuration)
+pub open spec fn fresh_segment(s: Segment, start: u64, expiry: IggyExpiry, cfg: SystemConfig) -> bool {
+    &&& s.start_offset == start && s.current_offset == start && s.end_offset == 0 && !s.is_closed
+    &&& s.size_bytes == 0 && s.last_index_position == 0 && s.unsaved_messages is None
+    &&& s.max_size_bytes == cfg.segment.size
+    &&& s.message_expiry == (match expiry { IggyExpiry::ServerDefault => cfg.segment.message_expiry, e => e })
 }
 
 // [C14.dec] over MATHEMATICAL integers: closed, finite expiry d, newest message timestamp + d <= now
@@ -249,6 +264,21 @@ pub proof fn lemma_keep_keep<T>(s: Seq<T>, f: spec_fn(T) -> bool, g: spec_fn(T) 
     }
 }
 
+pub open spec fn segs_below(s: Seq<Segment>, b: int) -> bool { forall|i: int| 0 <= i < s.len() ==> (#[trigger] s[i]).start_offset < b }
+
+pub proof fn lemma_keep_below(s: Seq<Segment>, f: spec_fn(Segment) -> bool, b: int)
+    requires segs_below(s, b),
+    ensures segs_below(seq_keep(s, f), b),
+    decreases s.len()
+{
+    if s.len() > 0 {
+        let d = s.drop_last();
+        assert forall|i: int| 0 <= i < d.len() implies (#[trigger] d[i]).start_offset < b by { assert(d[i] == s[i]); }
+        lemma_keep_below(d, f, b);
+        assert(s.last() == s[s.len() - 1]);
+    }
+}
+
 pub proof fn lemma_keep_sorted(s: Seq<Segment>, f: spec_fn(Segment) -> bool)
     requires segs_sorted(s),
     ensures segs_sorted(seq_keep(s, f)),
@@ -256,23 +286,23 @@ pub proof fn lemma_keep_sorted(s: Seq<Segment>, f: spec_fn(Segment) -> bool)
 {
     if s.len() > 0 {
         let d = s.drop_last();
+        let last = s[s.len() - 1];
+        assert(s.last() == last);
         assert forall|i: int, j: int| 0 <= i < j < d.len() implies (#[trigger] d[i]).start_offset < (#[trigger] d[j]).start_offset by {
             assert(d[i] == s[i] && d[j] == s[j]);
         }
         lemma_keep_sorted(d, f);
-        lemma_keep_props(d, f);
+        assert forall|i: int| 0 <= i < d.len() implies (#[trigger] d[i]).start_offset < last.start_offset by { assert(d[i] == s[i]); }
+        lemma_keep_below(d, f, last.start_offset as int);
         let kd = seq_keep(d, f);
         let k = seq_keep(s, f);
-        assert forall|i: int, j: int| 0 <= i < j < k.len() implies (#[trigger] k[i]).start_offset < (#[trigger] k[j]).start_offset by {
-            if j < kd.len() {
-                assert(k[i] == kd[i] && k[j] == kd[j]);
-            } else {
-                assert(k[j] == s.last());
-                assert(k[i] == kd[i]);
-                let w = choose|w: int| 0 <= w < d.len() && d[w] == kd[i];
-                assert(s[w] == d[w]);
-                assert(s[s.len() - 1] == s.last());
+        if f(last) {
+            assert(k == kd.push(last));
+            assert forall|i: int, j: int| 0 <= i < j < k.len() implies (#[trigger] k[i]).start_offset < (#[trigger] k[j]).start_offset by {
+                if j < kd.len() { assert(k[i] == kd[i] && k[j] == kd[j]); } else { assert(k[i] == kd[i]); assert(k[j] == last); }
             }
+        } else {
+            assert(k == kd);
         }
     }
 }
@@ -328,3 +358,41 @@ pub open spec fn part_frame(a: Partition, b: Partition) -> bool {
     &&& a.size_bytes == b.size_bytes && a.config == b.config
 }
 pub open spec fn segs_wf(s: Seq<Segment>) -> bool { forall|i: int| 0 <= i < s.len() ==> seg_wf(#[trigger] s[i]) }
+pub open spec fn not_start(so: u64) -> spec_fn(Segment) -> bool { |s: Segment| s.start_offset != so }
+pub open spec fn by_start() -> spec_fn(Segment) -> u64 { |s: Segment| s.start_offset }
+
+// a failed delete_segment leaves every segment in place; only the target may have lost its file handles
+pub open spec fn segs_same_except(a: Seq<Segment>, b: Seq<Segment>, so: u64) -> bool {
+    &&& a.len() == b.len()
+    &&& forall|i: int| 0 <= i < a.len() ==> seg_core_eq(#[trigger] a[i], b[i]) && (a[i].start_offset != so ==> b[i] == a[i])
+}
+
+pub proof fn lemma_keep_update_dropped<T>(s: Seq<T>, i: int, x: T, f: spec_fn(T) -> bool)
+    requires 0 <= i < s.len(), !f(s[i]), !f(x),
+    ensures seq_keep(s.update(i, x), f) == seq_keep(s, f),
+    decreases s.len()
+{
+    let u = s.update(i, x);
+    if i == s.len() - 1 {
+        assert(u.drop_last() == s.drop_last());
+        assert(u.last() == x);
+        assert(s.last() == s[i]);
+    } else {
+        assert(u.drop_last() == s.drop_last().update(i, x));
+        assert(u.last() == s.last());
+        assert(s.drop_last()[i] == s[i]);
+        lemma_keep_update_dropped(s.drop_last(), i, x, f);
+    }
+}
+
+pub proof fn lemma_sorted_strict_is_sorted_by_start(s: Seq<Segment>)
+    requires segs_sorted(s),
+    ensures sorted_by_key(s, by_start()), sorted_by_key(s, |a0: Segment| a0.start_offset),
+{
+    assert forall|i: int, j: int| 0 <= i <= j < s.len() implies by_start()(#[trigger] s[i]) <= by_start()(#[trigger] s[j]) by {
+        if i < j { assert(s[i].start_offset < s[j].start_offset); }
+    }
+    assert forall|i: int, j: int| 0 <= i <= j < s.len() implies (|a0: Segment| a0.start_offset)(#[trigger] s[i]) <= (|a0: Segment| a0.start_offset)(#[trigger] s[j]) by {
+        if i < j { assert(s[i].start_offset < s[j].start_offset); }
+    }
+}
